@@ -18,4 +18,56 @@ CHECKS = {
     },
 }
 
+CHECKS["C01"] = {
+    "technique": "runtime monitoring: icontract postcondition on both "
+                 "encodings' decode() calling an independent feasibility "
+                 "oracle, over generated boundary/hostile instances and "
+                 "exhaustive small signed-permutation sets",
+    "text": "Every decode() of the real encoders in the workload (tens of "
+            "thousands per quick run; 1x1 bins, item==bin, forced rotation, "
+            "int8/int16/int32 storage edges, ~127 unit items, shipped "
+            "instances; all signed permutations for <= 4 items) is judged by "
+            "an oracle that is not the package's validator. Held on what was "
+            "decoded; the quantifier over all instances is sampled.",
+    "note": TB,
+}
+CHECKS["C02"] = {
+    "technique": "runtime monitoring: icontract postcondition on the seven "
+                 "objectives' evaluate() recomputing the documented value; "
+                 "bounds, to_bin_count and pairwise dominance over pools of "
+                 "feasible packings incl. non-decoder layouts; history of "
+                 "one objective object",
+    "text": "Values, bounds, bin-count conversion and dominance of the real "
+            "objective objects are compared with an independent "
+            "recomputation on pools of oracle-filtered feasible packings "
+            "(decoder outputs and layouts no decoder produces), with one "
+            "long-lived objective object per instance so stale scratch "
+            "state would show. Held on the packings explored.",
+    "note": TB,
+}
+CHECKS["C03"] = {
+    "technique": "runtime monitoring: lower_bound_bins observed on "
+                 "instances with a witness packing (guillotine construction, "
+                 "harness placement search, decoder outputs) + postcondition "
+                 "n_bins >= bound on every decode",
+    "text": "The bound computed by the real constructor is compared with "
+            "ceil(area/A) and with the bin count of witness packings that "
+            "the oracle accepts: instances cut from k full bins (bound must "
+            "be exactly k when nothing is shrunk), tiny instances packed by "
+            "an own search, and every packing the decoders emit. Decides "
+            "'bound <= every packing exhibited', not optimality in general.",
+    "note": TB,
+}
+CHECKS["C14"] = {
+    "technique": "runtime monitoring: recorded call histories on one encoder "
+                 "object / one destination packing compared with an "
+                 "executable model of the documented bottom-left rule",
+    "text": "Sequences of decodings that reuse one encoder and one (dirtied) "
+            "destination are compared row by row with a stateless model "
+            "written from the documentation; a mismatch is classified as "
+            "rule deviation or history dependence by re-decoding with fresh "
+            "objects. Held on the histories explored.",
+    "note": TB,
+}
+
 NOT_APPLICABLE = {}
